@@ -11,7 +11,7 @@ def owners(tag, kind):
         out.add("C14")
     if kind == "XR" and base in ("C02", "C03", "C04"):
         out.add("C15")
-    if kind in ("NACK", "SLI", "FIR") and base in ("C02", "C03", "C04"):
+    if (kind in ("NACK", "FIR") and base in ("C02", "C03", "C04")) or (kind == "SLI" and tag in ("C02:roundtrip_value", "C04:value")):
         out.add("C16")
     if kind == "CP" and tag in ("C02:wf_rejected", "C05:marshalsize", "C05:marshalsize_vs_output", "C10:dest"):
         out.add("C11")
